@@ -64,6 +64,7 @@ Theorem C04_accepted_vm_faithful : forall pr M fuel,
   match run_ref fuel pr with
   | Done out ex => forall fv, run_vm fv M = VOutOfFuel \/ run_vm fv M = VDone out ex \/ exists o, run_vm fv M = VError ECallDepth o
   | Faulted FAssert out => forall fv, run_vm fv M = VOutOfFuel \/ run_vm fv M = VError EAssert out \/ exists o, run_vm fv M = VError ECallDepth o
+  | Faulted FOob out => forall fv, run_vm fv M = VOutOfFuel \/ run_vm fv M = VError EOob out \/ exists o, run_vm fv M = VError ECallDepth o
   | StuckO => False
   | _ => True
   end.
@@ -87,3 +88,11 @@ Print Assumptions C04_accepted_vm_no_internal_error.
 (* satisfiable: the simulation's example program (global, recursion, for/while/break/continue, strings) is accepted *)
 Example C04_vm_example_accepted : wt VmSimExamples.ex_prog = true /\ small_program VmSimExamples.ex_prog.
 Proof. split; [vm_compute; reflexivity | exact ex_prog_small]. Qed.
+
+(* arrays: accepted array programs are covered by every theorem above (an index out of range is a documented run-time
+   fault, not a stuck state: C04_wt_sound quantifies over it); the hypotheses are satisfiable on them *)
+Example C04_array_example_accepted : wt VmSimExamples.ex_arr = true /\ small_program VmSimExamples.ex_arr /\
+                                     wt VmSimExamples.ex_oob = true /\ small_program VmSimExamples.ex_oob.
+Proof. exact ex_arrays_accepted. Qed.
+Example C04_out_of_range_is_a_fault_not_stuck : run_ref 100 VmSimExamples.ex_oob = Faulted FOob [49; 10]%N.
+Proof. vm_compute. reflexivity. Qed.
